@@ -512,13 +512,17 @@ class invariant:  # pylint: disable=invalid-name
                 "but got: {}".format(cls, type(invariants_on_setattr))
             )
 
-        invariants.append(self._invariant)
+        # The very same decorator object can be applied to a class which has already inherited its invariant
+        # (*e.g.*, ``@some_invariant`` on both a class and its sub-class). The invariant is listed only once
+        # so that it is not checked twice.
+        if not any(self._invariant is an_invariant for an_invariant in invariants):
+            invariants.append(self._invariant)
 
-        if InvariantCheckEvent.CALL in self._invariant.check_on:
-            invariants_on_call.append(self._invariant)
+            if InvariantCheckEvent.CALL in self._invariant.check_on:
+                invariants_on_call.append(self._invariant)
 
-        if InvariantCheckEvent.SETATTR in self._invariant.check_on:
-            invariants_on_setattr.append(self._invariant)
+            if InvariantCheckEvent.SETATTR in self._invariant.check_on:
+                invariants_on_setattr.append(self._invariant)
 
         icontract._checkers.add_invariant_checks(cls=cls)
 
